@@ -360,6 +360,17 @@ def standard_proof_stage(chk, props_files, deps_note=""):
     chk.coverage["obligations"] = pr["obligations"]
     chk.coverage["discharged"] = pr["discharged"]
     chk.coverage["theorems"] = pr["theorems"]
+    if chk.tier == "thorough" and not pr["errors"]:
+        # independent re-check of the compiled theorems and everything they depend on
+        mods = ["GV." + f[:-2].replace("/", ".") for f in props_files]
+        try:
+            rc, out = sh(["coqchk", "-silent", "-o", "-Q", ".", "GV"] + mods, cwd=COQ, timeout=2400)
+        except subprocess.TimeoutExpired:
+            rc, out = 124, "coqchk timed out"
+        summary = out[out.find("CONTEXT SUMMARY"):] if "CONTEXT SUMMARY" in out else out[-1500:]
+        chk.coverage["coqchk"] = {"exit": rc, "summary": " ".join(summary.split())[:1500]}
+        if rc != 0:
+            chk.add_broken("coqchk rejects " + " ".join(mods), out[-2000:])
     for e in pr["errors"]:
         detail = e
         if "coq" in st.get("errors", {}):
